@@ -847,3 +847,77 @@ func init() {
 		WallBudget: shapeBudget,
 	})
 }
+
+func init() {
+	registerProp(&PropSpec{
+		ID: "C06",
+		Units: func(tier string, seed int64, sh *Shared) []Unit {
+			var units []Unit
+			// (a) rune level
+			maxL := 2
+			if tier == "thorough" {
+				maxL = 3
+			}
+			for l := 0; l <= maxL; l++ {
+				for _, nt := range []string{"prefix", "infix"} {
+					units = append(units, Unit{"VerifC06Text", []string{itoa2(l), nt, "", ""}})
+				}
+			}
+			ctxs := [][3]string{{"prefix", "(", ")"}, {"prefix", "(+ 1 ", ")"}, {"prefix", "(= a \"x", "\")"}, {"prefix", ";; c", "\n(+ 1 1)"}, {"prefix", "(in a (1 ", "))"},
+				{"infix", "a + ", ""}, {"infix", "", " + 1"}, {"infix", "if(a, ", ", 1)"}, {"infix", "in(a, [1 ", "])"}, {"infix", "!", ""}, {"infix", "(a ", " 1)"}}
+			for _, c := range ctxs {
+				for l := 1; l <= maxL && l <= 2; l++ {
+					units = append(units, Unit{"VerifC06Text", []string{itoa2(l), c[0], c[1], c[2]}})
+				}
+			}
+			units = append(units, Unit{"VerifC06Text", []string{"1", "prefix", "(+ 1 ", ")", "undef"}}, Unit{"VerifC06Text", []string{"1", "infix", "a + ", "", "undef"}})
+			// (b) token level
+			maxN := 3
+			if tier == "thorough" {
+				maxN = 4
+			}
+			for n := 0; n <= maxN; n++ {
+				units = append(units, Unit{"VerifC06Tokens", []string{itoa2(n), "infix", ""}})
+				units = append(units, Unit{"VerifC06Tokens", []string{itoa2(n + 1), "prefix", "0"}})
+			}
+			if tier == "thorough" {
+				// one more token in prefix notation for the common openings
+				for _, first := range []string{"0,7", "0,8", "0,11", "0,10", "0,5", "0,0"} {
+					units = append(units, Unit{"VerifC06Tokens", []string{"6", "prefix", first}})
+				}
+			}
+			// (c)+(d) run time with any-typed bindings
+			c := tierConfigs(tier)
+			for _, src := range shapeFamily(1, leavesStandard, false, "BI") {
+				units = append(units, Unit{"VerifC06Run", []string{src, "", c, "*"}})
+				units = append(units, Unit{"VerifC06Run", []string{src, "event", "0000,1111", "*"}})
+			}
+			maxM, _ := shapeTierParams(tier)
+			for _, src := range shapeFamily(maxM, leavesVarsOnly, false, "BI") {
+				for k, v := range varsOf(src) {
+					if k < 2 || tier == "thorough" {
+						units = append(units, Unit{"VerifC06Run", []string{src, "", "0000,1111", v}})
+					}
+				}
+			}
+			for _, src := range []string{"(= i0 i1)", "(!= i0 i1)", "(eq i0 i1 i2)", "(in i0 i1)", "(overlap i0 i1)", "(between i0 i1 i2)", "(xor b0 b1)", "(t_version i0)", "(date i0 i1)", "(version i0 i1)", "(% i0 i1)", "(if b0 i0 i1)"} {
+				units = append(units, Unit{"VerifC06Run", []string{src, "", "all", "*"}})
+			}
+			return units
+		},
+		Reach: []string{"compiled", "accepted", "parsed", "tree", "ran"},
+		Bounds: func(tier string) map[string]interface{} {
+			l, n := 2, 3
+			if tier == "thorough" {
+				l, n = 3, 4
+			}
+			return map[string]interface{}{"text": "every text of ≤" + itoa(l) + " characters, and 1-2 arbitrary characters inside 11 prefix/infix contexts; characters: all of Latin-1 (solver variable) plus U+1680, U+2028, U+3000, '中', '٣', U+FFFD, U+10FFFF, NUL; both notations",
+				"tokens": "every vector of ≤" + itoa(n) + " tokens (infix) / ≤" + itoa(n+1) + " tokens starting with '(' (prefix) over a 19-token vocabulary, driven through parseAstTree→optimize→check→buildExpr→Eval/TryEval/Dump (nondeterministic choice, exhaustive; the parser is control code and needs no solver reasoning)",
+				"run_time": "shapes ≤1 internal node with EVERY variable bound to any of {int64, bool, string, []int64, []string, nil, empty list}; larger shapes with one such variable; 12 operator applications with all operands any-typed; events on/off"}
+		},
+		Rule:        "panic / hang edges (index and slice bounds, nil dereference, failed type assertion, uncomparable ==, division by zero, makeslice, send on a full or nil channel) are obligations on every symbolic path; each sat answer is replayed through the public API",
+		Assumptions: []string{"texts longer than the stated bounds and characters outside the alphabet are outside the claim", "fetchers and operators are well-behaved (they return a value or an error)"},
+		MaxPaths:    3_000_000,
+		WallBudget:  shapeBudget,
+	})
+}
